@@ -5,9 +5,9 @@ import (
 	"os"
 	"os/exec"
 	"os/signal"
-	"syscall"
 	"path/filepath"
 	"strings"
+	"syscall"
 	"testing"
 	"time"
 
@@ -246,7 +246,7 @@ func runCase(c dlCase) (fail *vt.Fail, soft string) {
 
 func checkDeadline(c dlCase) *vt.Fail {
 	last = obs{}
-	if c.DeadlineMS < 200 || c.DeadlineMS > 10000 || len(c.Scripts) == 0 || len(c.Scripts) > 6 {
+	if c.DeadlineMS < 20 || c.DeadlineMS > 10000 || len(c.Scripts) == 0 || len(c.Scripts) > 6 {
 		return nil
 	}
 	// soft (upper) bounds are judged only on a responsive machine and must reproduce three times in a row
@@ -277,7 +277,7 @@ func trunc(s string, n int) string {
 }
 
 func genDeadline(t *rapid.T) dlCase {
-	c := dlCase{DeadlineMS: rapid.SampledFrom([]int{300, 400, 600, 900, 1500, 2200, 3000}).Draw(t, "deadline")}
+	c := dlCase{DeadlineMS: rapid.SampledFrom([]int{300, 400, 600, 900, 1500, 2200, 3000, 150, 50}).Draw(t, "deadline")}
 	if rapid.IntRange(0, 3).Draw(t, "sequential") == 0 {
 		// sequential T: scripts that use up 10-35% of the budget each, then one that blocks
 		c.Sequential = true
@@ -332,6 +332,8 @@ var scenarios = []dlCase{
 	{DeadlineMS: 900, Sequential: true, Scripts: []scriptSpec{{Kind: "ignore-quit-inherited"}, {Kind: "ignore-quit-inherited", Before: 1}}},
 	{DeadlineMS: 1500, Sequential: true, Scripts: []scriptSpec{{Kind: "consume", EdgeMS: 20}, {Kind: "block"}, {Kind: "ignore-quit-inherited"}}},
 	{DeadlineMS: 600, Scripts: []scriptSpec{{Kind: "ignore-quit-inherited", Neg: true}, {Kind: "early"}, {Kind: "block", Before: 2}}},
+	// a deadline closer than two grace periods: the interrupt time is already past when the scripts start
+	{DeadlineMS: 120, Scripts: []scriptSpec{{Kind: "ignore-quit-inherited"}, {Kind: "block", Before: 1}}},
 }
 
 func TestScenarios(t *testing.T) {
